@@ -278,7 +278,8 @@ def st_typed_library():
     np = st.fixed_dictionaries({"np": st.fixed_dictionaries({"first": st.lists(text, max_size=2), "von": st.lists(text, max_size=1), "last": st.lists(text, min_size=1, max_size=2), "jr": st.lists(text, max_size=1)})})
     val = st.one_of(text, text, text, st.integers(0, 3000), st.lists(text, max_size=3), np, st.lists(np, max_size=2))
     key = st.sampled_from(["title", "author", "year", "note", "Title", "é"])
-    line = st.integers(0, 30)
+    # blocks and fields built by hand through the model classes have no start line
+    line = st.one_of(st.integers(0, 30), st.integers(0, 30), st.none())
     entry = st.fixed_dictionaries({"t": st.just("entry"), "type": st.sampled_from(["article", "book"]), "key": st.text(alphabet="abc12", min_size=1, max_size=4),
                                    "fields": st.lists(st.tuples(key, val, line).map(list), max_size=5, unique_by=lambda f: f[0]), "line": line, "raw": text})
     string = st.fixed_dictionaries({"t": st.just("string"), "key": st.sampled_from(["s", "t", "jan"]), "value": text, "line": line, "raw": text})
@@ -321,9 +322,24 @@ def w_scope_grid(acc):
         {"t": "dupfield", "entry": {"type": "misc", "key": "d", "fields": [["a", "é", 19], ["a", "\\'e", 19]], "line": 18, "raw": "@misc{d}"}, "keys": ["a"]},
         {"t": "mwerror", "entry": {"type": "misc", "key": "m", "fields": [["a", "é", 21]], "line": 20, "raw": "@misc{m}"}, "err": "invalidname"},
     ]
+    def by_hand(spec):
+        """The same block as built through the model classes: no start lines, no raw text."""
+        if isinstance(spec, dict):
+            out = {k: by_hand(v) for k, v in spec.items()}
+            if "line" in out:
+                out["line"] = None
+            if "raw" in out and out.get("t") != "failed":
+                out["raw"] = None
+            if "fields" in out:
+                out["fields"] = [[f[0], f[1], None] for f in spec["fields"]]
+            return out
+        return spec
+
+    hand = [by_hand(b) for b in lib if b["t"] not in ("dupfield", "mwerror")]
     for seq in _scope_specs():
         for inplace in (True, False):
             acc.run("scope", o_scope, {"lib": lib, "seq": seq, "inplace": inplace}, True)
+            acc.run("scope", o_scope, {"lib": hand, "seq": seq, "inplace": inplace}, True)
             for k in range(len(lib)):
                 acc.run("scope", o_scope, {"lib": [lib[k]], "seq": seq, "inplace": inplace}, True)
 
